@@ -5,6 +5,8 @@ pub mod c03;
 pub mod c04;
 pub mod c05;
 pub mod c06;
+pub mod c07;
+pub mod c08;
 pub mod c13;
 pub mod c14;
 
@@ -15,6 +17,8 @@ pub fn run(ctx: &mut Ctx) -> bool {
         "C04" => c04::run(ctx),
         "C05" => c05::run(ctx),
         "C06" => c06::run(ctx),
+        "C07" => c07::run(ctx),
+        "C08" => c08::run(ctx),
         "C13" => c13::run(ctx),
         "C14" => c14::run(ctx),
         _ => return false,
